@@ -580,6 +580,13 @@ func (e *Engine) CreateIndex(ctx context.Context, username, collectionName strin
 		WithSnapshotRenewalPeriod(0).
 		WithExplicitClose(true)
 
+	if isUnique {
+		// the emptiness check of the collection must see the current rows
+		opts = sql.DefaultTxOptions().
+			WithExtra([]byte(username)).
+			WithExplicitClose(true)
+	}
+
 	sqlTx, err := e.sqlEngine.NewTx(ctx, opts)
 	if err != nil {
 		return mayTranslateError(err)
@@ -675,9 +682,30 @@ func (e *Engine) InsertDocuments(ctx context.Context, username, collectionName s
 	if err != nil {
 		return 0, nil, mayTranslateError(err)
 	}
-	defer sqlTx.Cancel()
+	defer func() { sqlTx.Cancel() }()
+
+	// the relaxed snapshot above is never renewed: it can only be used when no unique (secondary)
+	// index has to be validated, otherwise deleted keys look alive and recent ones are not seen
+	table, err := getTableForCollection(sqlTx, collectionName)
+	if err == nil && hasUniqueSecondaryIndex(table) {
+		sqlTx.Cancel()
+
+		sqlTx, err = e.sqlEngine.NewTx(ctx, sql.DefaultTxOptions().WithExtra([]byte(username)))
+		if err != nil {
+			return 0, nil, mayTranslateError(err)
+		}
+	}
 
 	return e.upsertDocuments(ctx, sqlTx, collectionName, docs, true)
+}
+
+func hasUniqueSecondaryIndex(table *sql.Table) bool {
+	for _, index := range table.GetIndexes() {
+		if !index.IsPrimary() && index.IsUnique() {
+			return true
+		}
+	}
+	return false
 }
 
 func (e *Engine) upsertDocuments(ctx context.Context, sqlTx *sql.SQLTx, collectionName string, docs []*structpb.Struct, isInsert bool) (txID uint64, docIDs []DocumentID, err error) {
